@@ -884,7 +884,7 @@ def addressed_cases():
 
 
 # ------------------------------------------------------------------ enumeration
-QUICK_CFGS_SIZE3 = ("default", "dry", "tags_t")
+QUICK_CFGS_SIZE3 = ("default", "dry")
 
 
 def plain_cases(tier):
@@ -939,7 +939,7 @@ def switch_cases():
 def run(ctx):
     ctx.bounds = {"runs": "C01 enumeration: " + (
                       "step cases on shapes with <=2 step positions (all configurations) and 3 positions (default, "
-                      "--dry-run, --tags=t); hook/cleanup faults on shapes with <=2 positions" if ctx.quick else
+                      "--dry-run); hook/cleanup faults on shapes with <=2 positions" if ctx.quick else
                       "step cases on shapes with <=4 step positions, all hook/cleanup fault cases") +
                       "; every run reported with show_skipped on and off",
                   "slots": len(SLOTS), "atoms": len(ATOMS), "single_shapes": len(SINGLE_SHAPES),
